@@ -146,6 +146,19 @@ def main(argv: List[str]) -> int:
                             {"input": j, "edit": kind, "replacement": repl, "observed": repr(conv.unstructure(obj))[:400], "pass": pas, "replay": f"converter.structure(<input>, lsprotocol.types.{d.pyname})"},
                             True,
                         )
+    # ---- frame condition: union hooks must not touch state that switches validation off (they may call
+    #      converter.structure and pure builtins only); a violation is replayed as a poisoning sequence
+    from lib.unions import UnionAnalysis, site_inputs
+    from props import _unions as U
+
+    ua = UnionAnalysis(live, mm, solve=False)
+    for r in ua.results:
+        for dotted in r.extra.get("frame_calls", []):
+            seq = poison_replay(live, mm, r)
+            what = f"hook {U.short(r.site.handler_name)} calls {dotted}: outside the frame of a structure hook (converter.structure / pure builtins)"
+            if seq:
+                what += f"; after {seq['poison_kind']} input at {r.site.where[0]} an invalid edit is accepted: {seq['accepted']}"
+            run.violation(f"frame:{U.short(r.site.handler_name)}:{dotted}", what, seq or {"use_sites": r.site.where[:4], "note": "no accepting sequence found natively"}, failing_input_found=bool(seq))
     run.assume(
         "cattrs: a missing key of a field without default raises; Enum(v) raises for non-members; the attrs constructor runs the field validators (assumed rows; each exercised on every eligible property by the sweep)",
         "the surrounding value of the sweep is the minimal and the maximal witness of the class (bounded); the edited property ranges over all eligible ones (exhaustive)",
@@ -164,6 +177,63 @@ def main(argv: List[str]) -> int:
         }
     )
     return run.finish(cov)
+
+
+def poison_replay(live, mm, res):
+    """Feed valid and broken inputs to the hook's union position, then check that plainly invalid edits are still rejected."""
+    import copy
+    from lib.unions import site_inputs
+
+    conv = live.converter
+    T = live.types
+    probes = [
+        (T.Position, {"line": -1, "character": 0}),
+        (T.Position, {"line": 0, "character": 2**31}),
+        (T.CreateFile, {"kind": "rename", "uri": "file:///a"}),
+        (T.VersionedTextDocumentIdentifier, {"uri": "file:///a", "version": 2**31}),
+    ]
+
+    def accepted():
+        for cls, j in probes:
+            try:
+                conv.structure(j, cls)
+                return f"{cls.__name__} {j}"
+            except Exception:
+                pass
+        return None
+
+    def broken(j):
+        out = []
+        if isinstance(j, list) and j:
+            b = copy.deepcopy(j)
+            b[-1] = 12345
+            out.append(b)
+            if isinstance(j[0], dict) and j[0]:
+                b = copy.deepcopy(j)
+                k = next(iter(b[0]))
+                b[-1] = {k: {"bogus": object}}
+                b[-1] = {}
+                out.append(b)
+        if isinstance(j, dict) and j:
+            b = dict(j)
+            b[next(iter(b))] = {"bogus": [1]}
+            out.append(b)
+            out.append({})
+        return out
+
+    for j in site_inputs(mm, res.site.tau)[:80]:
+        for kind, v in [("a valid", j)] + [("a malformed", b) for b in broken(j)]:
+            try:
+                conv.structure(v, res.site.annotation)
+            except Exception:
+                pass
+            acc = accepted()
+            if acc:
+                import attrs
+
+                attrs.validators.set_disabled(False)
+                return {"poison_kind": kind, "poison_input": v, "accepted": acc, "use_sites": res.site.where[:4], "replay": "converter.structure(poison_input, union) [exception ignored]; then converter.structure(accepted input) no longer raises"}
+    return None
 
 
 def _first_site(live, mm, tname):
